@@ -699,7 +699,7 @@ def _real_loop_soak(ctx, cycles, tock):
 
 def extra(tier, ctx):
     n = _grid(5 if tier == "quick" else 7, ctx)
-    na = _grid(4 if tier == "quick" else 6, ctx, ado=True)
+    na = _grid(3 if tier == "quick" else 6, ctx, ado=True)
     out = {"exhaustive_grid_runs": n, "exhaustive_grid_runs_ado": na, "exhaustive": False}
     out["real_clock_soak"] = _real_clock_soak(ctx, 12 if tier == "quick" else 60, 0.02)
     out["real_loop_soak_ado"] = _real_loop_soak(ctx, 12 if tier == "quick" else 60, 0.02)
